@@ -25,11 +25,11 @@ CHECKS = {
             dict(harness="C01_F1", panicnil=[0, 1], cover=["accepted", "rejected"], bounds="all inputs of exactly 1 rune over D"),
             dict(harness="C01_F2", panicnil=[0, 1], cover=["accepted", "rejected"], bounds="all inputs of exactly 2 " + D),
             dict(harness="C01_F3", panicnil=[0, 1], cover=["accepted", "rejected"], bounds="all inputs of exactly 3 " + D),
-            dict(harness="C01_T1", panicnil=[1], cover=["accepted", "rejected"], bounds="43 templates x every position replaced by one symbolic rune over D"),
+            dict(harness="C01_T1", panicnil=[1], cover=["accepted", "rejected"], bounds="65 templates x every position replaced by one symbolic rune over D"),
             dict(harness="C01_AliasQ", cover=["accepted"], bounds="alias a = one free ASCII byte (+ optional blank), alias b = x, input 'a b; a'"),
             dict(harness="C01_Err", panicnil=[0, 1], bounds="10 ill-formed programs whose error arrives while a here-document, substitution, quote or comment is pending"),
             dict(harness="C01_Err1", panicnil=[1], bounds="the same 10 programs x one symbolic hole over D"),
-            dict(harness="C01_Sources", bounds="52 concrete templates through string/[]byte/bufio.Reader/io.Reader"),
+            dict(harness="C01_Sources", bounds="65 concrete templates through string/[]byte/bufio.Reader/io.Reader"),
         ],
         "thorough": [
             dict(harness="C01_F1", panicnil=[0, 1], cover=["accepted", "rejected"]),
@@ -37,8 +37,8 @@ CHECKS = {
             dict(harness="C01_F3", panicnil=[0, 1], cover=["accepted", "rejected"]),
             dict(harness="C01_F4", panicnil=[1], cover=["accepted", "rejected"], bounds="all inputs of exactly 4 " + D),
             dict(harness="C01_T1", panicnil=[0, 1], cover=["accepted", "rejected"]),
-            dict(harness="C01_T2", panicnil=[1], bounds="43 templates x every adjacent pair replaced by 2 symbolic ASCII runes"),
-            dict(harness="C01_Ins1", panicnil=[1], bounds="43 templates x one symbolic rune inserted at every position"),
+            dict(harness="C01_T2", panicnil=[1], bounds="65 templates x every adjacent pair replaced by 2 symbolic ASCII runes"),
+            dict(harness="C01_Ins1", panicnil=[1], bounds="65 templates x one symbolic rune inserted at every position"),
             dict(harness="C01_Alias", panicnil=[1], cover=["accepted"], bounds="alias table {a: 2 free bytes[+blank], b: 1 free byte[+blank]} x 2 free runes of {a b blank ; newline} + ' a b'"),
             dict(harness="C01_Err", panicnil=[0, 1]),
             dict(harness="C01_Err1", panicnil=[0, 1]),
@@ -52,7 +52,7 @@ CHECKS = {
             dict(harness="C02_Reserved", bounds="16 reserved words x {argument, for item, case pattern, redirection target, assignment value, case word}"),
             dict(harness="C02_Closers", bounds="16 programs with a reserved word directly after ) } fi done esac, against the same text with a separator"),
             dict(harness="C02_Ref_F3", cover=["ref-complete", "ref-rejects"], bounds="differential against the independent recogniser refparse: every 3-rune input over D that the recogniser classifies as a complete command is accepted and consumed exactly"),
-            dict(harness="C02_Ref_T1", cover=["ref-complete", "ref-rejects"], bounds="same differential on 57 templates x one symbolic hole"),
+            dict(harness="C02_Ref_T1", cover=["ref-complete", "ref-rejects"], bounds="same differential on 65 templates x one symbolic hole"),
             dict(harness="C02_Cross", bounds="14 cross-construct programs (parenthesis bookkeeping of case patterns, subshells, function definitions, substitutions vs the (( )) command), each against an equivalent spelling"),
             dict(harness="C02_Prefix", bounds="every prefix of every template, error template and here-document site (programs cut in the middle of a construct) against the recogniser: complete => accepted and consumed exactly"),
         ],
@@ -74,9 +74,9 @@ CHECKS = {
             dict(harness="C03_Negative", bounds="82 hand-written ill-formed programs (unbalanced / misplaced reserved words and operators, missing operands, unterminated quotes, expansions and here-documents, bad for/case/function syntax)"),
             dict(harness="C03_Damage", cover=["deleted-reserved-word", "duplicated-operator", "stray-at-start", "operator-at-end"], bounds="generated single-line derivations (depth 2, at most 2 non-default productions) x one damage that makes them ill-formed by construction (delete a closing / opening reserved word, duplicate an operator, operator or stray closer at the start, binary operator at the end) x every applicable position"),
             dict(harness="C03_Loc_F3", cover=["accepted", "rejected"], bounds="all 3-rune inputs over D: error location on rejecting paths, character conservation on accepting paths"),
-            dict(harness="C03_Loc_T1", cover=["accepted", "rejected"], bounds="57 templates x one symbolic hole over D"),
+            dict(harness="C03_Loc_T1", cover=["accepted", "rejected"], bounds="65 templates x one symbolic hole over D"),
             dict(harness="C03_Ref_F3", cover=["ref-complete", "ref-rejects"], bounds="differential against the independent recogniser refparse: every 3-rune input over D that the recogniser does not classify as a complete command is rejected"),
-            dict(harness="C03_Ref_T1", cover=["ref-complete", "ref-rejects"], bounds="same differential on 57 templates x one symbolic hole"),
+            dict(harness="C03_Ref_T1", cover=["ref-complete", "ref-rejects"], bounds="same differential on 65 templates x one symbolic hole"),
             dict(harness="C03_Ref_Gen", bounds="the recogniser and the parser against the derivation generator (depth 2, budget 2, single line): both accept every derivation"),
             dict(harness="C03_Prefix", bounds="every prefix of every template, error template and here-document site (1659 programs cut in the middle of a construct, incl. right after a here-document delimiter) against the recogniser: ill-formed or incomplete => rejected"),
         ],
@@ -96,10 +96,10 @@ CHECKS = {
     },
     "C04": {
         "quick": [
-            dict(harness="C04_T0", cover=["accepted"], bounds="52 concrete templates"),
+            dict(harness="C04_T0", cover=["accepted"], bounds="65 concrete templates"),
             dict(harness="Conf_ParserCorpus", samples=300, bounds="translation validation: the 252 source literals of the repository's parser tests, concretely, engine vs native (error, skeleton, Pos/End of every node, comments, printed text must be identical)"),
             dict(harness="C04_F3", cover=["accepted", "rejected"], bounds="accepted inputs among all 3-rune strings over D: every position field spells its token, nesting and order"),
-            dict(harness="C04_T1", cover=["accepted"], bounds="43 templates x one symbolic hole over D"),
+            dict(harness="C04_T1", cover=["accepted"], bounds="65 templates x one symbolic hole over D"),
         ],
         "thorough": [
             dict(harness="C04_T0", cover=["accepted"]),
@@ -111,7 +111,7 @@ CHECKS = {
     },
     "C05": {
         "quick": [
-            dict(harness="C05_T0", cover=["accepted"], bounds="52 concrete templates x symbolic Config (5 x 64-bit Style, Case, Width 0..8)"),
+            dict(harness="C05_T0", cover=["accepted"], bounds="65 concrete templates x symbolic Config (5 x 64-bit Style, Case, Width 0..8)"),
             dict(harness="C05_F2", cover=["accepted"], bounds="accepted inputs among all 2-rune strings over D x symbolic Config"),
             dict(harness="C05_F3", cover=["accepted", "lone-backslash"], bounds="accepted inputs among all 3-rune strings over D x symbolic Config"),
             dict(harness="C05_G12", cover=["accepted"], bounds="generated derivations of depth 1 with at most 2 non-default productions (C02's generator, single- and multi-line) x symbolic Config"),
@@ -122,13 +122,13 @@ CHECKS = {
             dict(harness="C05_T0", cover=["accepted"]),
             dict(harness="C05_F2", cover=["accepted"]),
             dict(harness="C05_F3", cover=["accepted", "lone-backslash"]),
-            dict(harness="C05_T1", cover=["accepted"], bounds="52 templates x one symbolic hole over D x symbolic Config"),
-            dict(harness="C05_Default", bounds="52 templates x one symbolic hole, default Fprint configuration"),
+            dict(harness="C05_T1", cover=["accepted"], bounds="65 templates x one symbolic hole over D x symbolic Config"),
+            dict(harness="C05_Default", bounds="65 templates x one symbolic hole, default Fprint configuration"),
         ],
     },
     "C18": {
         "quick": [
-            dict(harness="C18_T0", cover=["accepted", "write-fault"], bounds="52 concrete templates x symbolic Config x writer failing after k bytes (k symbolic)"),
+            dict(harness="C18_T0", cover=["accepted", "write-fault"], bounds="65 concrete templates x symbolic Config x writer failing after k bytes (k symbolic)"),
             dict(harness="C18_F2", cover=["accepted", "write-fault"], bounds="accepted 2-rune inputs x symbolic Config x symbolic write-fault offset"),
             dict(harness="C18_F3", cover=["accepted", "write-fault"], bounds="accepted 3-rune inputs x symbolic Config x symbolic write-fault offset"),
             dict(harness="C18_G1", cover=["accepted", "write-fault"], bounds="generated derivations of depth 1 with at most 1 non-default production x symbolic Config x symbolic write-fault offset"),
@@ -138,7 +138,7 @@ CHECKS = {
             dict(harness="C18_T0", cover=["accepted", "write-fault"]),
             dict(harness="C18_F2", cover=["accepted", "write-fault"]),
             dict(harness="C18_F3", cover=["accepted", "write-fault"]),
-            dict(harness="C18_T1", cover=["accepted", "write-fault"], bounds="52 templates x one symbolic hole x symbolic Config x symbolic write-fault offset"),
+            dict(harness="C18_T1", cover=["accepted", "write-fault"], bounds="65 templates x one symbolic hole x symbolic Config x symbolic write-fault offset"),
         ],
     },
     "C06": {
@@ -162,9 +162,9 @@ CHECKS = {
     },
     "C07": {
         "quick": [
-            dict(harness="C07_T0", cover=["complete"], bounds="52 concrete templates as first command, followed by a second command"),
+            dict(harness="C07_T0", cover=["complete"], bounds="65 concrete templates as first command, followed by a second command"),
             dict(harness="C07_F3", cover=["complete", "comment-only"], bounds="every 3-rune input over D that is a complete command on its own, followed by a second command"),
-            dict(harness="C07_T1", cover=["complete"], bounds="52 templates x one symbolic hole, followed by a second command"),
+            dict(harness="C07_T1", cover=["complete"], bounds="65 templates x one symbolic hole, followed by a second command"),
             dict(harness="C07_Blank", bounds="1..3 blank lines (optionally with one symbolic blank) before a command"),
             dict(harness="C07_Ref_T1", cover=["stream-consumed"], bounds="templates x one symbolic hole + a second command: the stream is cut by the independent recogniser; every successive call must stop exactly at its cuts"),
             dict(harness="C07_Ref_F3", cover=["stream-consumed"], bounds="same for every 3-rune input over D + a second command"),
@@ -200,8 +200,8 @@ CHECKS = {
         "quick": [
             dict(harness="C10_F2", cover=["fault", "fault-not-reached"], bounds="all 2-rune inputs over D x every fault position k in [0,2] (k symbolic)"),
             dict(harness="C10_F3", cover=["fault", "fault-not-reached"], bounds="all 3-rune ASCII inputs x every fault position k in [0,3] (k symbolic)"),
-            dict(harness="C10_T0", cover=["fault"], bounds="43 concrete templates x every fault position (k symbolic)"),
-            dict(harness="C10_Reader", cover=["fault"], bounds="43 concrete templates delivered by an io.Reader (raw and through bufio.Reader) failing after every byte count"),
+            dict(harness="C10_T0", cover=["fault"], bounds="65 concrete templates x every fault position (k symbolic)"),
+            dict(harness="C10_Reader", cover=["fault"], bounds="65 concrete templates delivered by an io.Reader (raw and through bufio.Reader) failing after every byte count"),
             dict(harness="C10_Transient_T0", cover=["fault"], bounds="templates x one transient failure at every position (the scanner fails once, then continues to deliver the text)"),
             dict(harness="C10_Transient_F3", cover=["fault"], bounds="all 3-rune ASCII inputs x one transient failure at every position"),
         ],
@@ -209,7 +209,7 @@ CHECKS = {
             dict(harness="C10_F2", cover=["fault", "fault-not-reached"]),
             dict(harness="C10_F3", cover=["fault", "fault-not-reached"]),
             dict(harness="C10_T0", cover=["fault"]),
-            dict(harness="C10_T1", cover=["fault"], bounds="43 templates x one symbolic hole x every fault position"),
+            dict(harness="C10_T1", cover=["fault"], bounds="65 templates x one symbolic hole x every fault position"),
             dict(harness="C10_Reader", cover=["fault"]),
             dict(harness="C10_Transient_T0", cover=["fault"]),
             dict(harness="C10_Transient_F3", cover=["fault"]),
@@ -332,8 +332,8 @@ CHECKS = {
             dict(harness="C19_Measure_F3", cover=["accepted", "rejected"], bounds="accepted inputs among all 3-rune strings over D: Pos/End of every node and comment"),
             dict(harness="C19_Print_F3", cover=["accepted"], bounds="accepted inputs among all 3-rune strings over D x symbolic Config (5 x 64-bit Style, Case, Width 0..8)"),
             dict(harness="C19_Expand_F2", cover=["accepted"], bounds="accepted inputs among all 2-rune strings over D x all 2^64 ExpMode x all 2^64 Option values, Args={sh,p1,''}"),
-            dict(harness="C19_Measure_T1", cover=["accepted"], bounds="57 templates x one symbolic hole"),
-            dict(harness="C19_Expand_T0Q", cover=["accepted"], bounds="57 concrete templates x 6 documented ExpModes x NoGlob|NoUnset on/off x {0,1,2} positional parameters"),
+            dict(harness="C19_Measure_T1", cover=["accepted"], bounds="65 templates x one symbolic hole"),
+            dict(harness="C19_Expand_T0Q", cover=["accepted"], bounds="65 concrete templates x 6 documented ExpModes x NoGlob|NoUnset on/off x {0,1,2} positional parameters"),
             dict(harness="C19_Deep", bounds="8 kinds of multi-line compound constructs nested 1, 5, 9 and 12 levels deep (optionally inside a brace group) x 4 printer configurations: measured, printed, re-parsed"),
             dict(harness="C19_Eval_F2", cover=["error", "value"], bounds="Eval of all 2-rune strings over D"),
             dict(harness="C19_Match_22", bounds="patterns of 2 symbols over {a b * ? [ ] ! ^ - \\ . newline} x subjects of 2 over {a b - ] . newline} x all Mode values"),
@@ -346,10 +346,10 @@ CHECKS = {
             dict(harness="C19_Print_F3", cover=["accepted"]),
             dict(harness="C19_Expand_F2", cover=["accepted"]),
             dict(harness="C19_Expand_F3", cover=["accepted"], bounds="all 3-rune ASCII strings x all ExpMode/Option bit patterns"),
-            dict(harness="C19_Expand_T0", cover=["accepted"], bounds="43 concrete templates x all ExpMode/Option bit patterns"),
-            dict(harness="C19_Expand_T1", cover=["accepted"], bounds="43 templates x one symbolic hole x 6 documented modes x NoGlob|NoUnset on/off"),
+            dict(harness="C19_Expand_T0", cover=["accepted"], bounds="65 concrete templates x all ExpMode/Option bit patterns"),
+            dict(harness="C19_Expand_T1", cover=["accepted"], bounds="65 templates x one symbolic hole x 6 documented modes x NoGlob|NoUnset on/off"),
             dict(harness="C19_Measure_T1", cover=["accepted"]),
-            dict(harness="C19_Print_T1", cover=["accepted"], bounds="43 templates x one symbolic hole x symbolic Config"),
+            dict(harness="C19_Print_T1", cover=["accepted"], bounds="65 templates x one symbolic hole x symbolic Config"),
             dict(harness="C19_Eval_F3", cover=["error", "value"], bounds="Eval of all 3-rune strings over D"),
             dict(harness="C19_Match_32", bounds="patterns of 3 symbols x subjects of 2 x all Mode values"),
             dict(harness="C19_Glob_3"),
